@@ -171,6 +171,17 @@ def run(ctx):
             if "rightmost" in spec and rng.random() < 0.5:
                 s_ = left + occ + pipe.rs(rng, 3) + ad + right
             reads.append((f"r{i}", s_, "I" * len(s_)))
+            if "^" in spec and rng.random() < 0.6:
+                # an exact copy, then a read a little *shorter* than the anchored adapter (a deletion, often a further substitution near the end):
+                # what the aligner reports for a read must not depend on the read it saw before
+                reads.append((f"r{i}e", ad + pipe.rs(rng, rng.randint(0, 5)), None))
+                sh = list(ad)
+                del sh[rng.randrange(1, len(sh) - 2)]
+                if rng.random() < 0.7:
+                    j = len(sh) - 1 - rng.randint(0, 1)
+                    sh[j] = rng.choice([c for c in "ACGT" if c != sh[j]])
+                reads.append((f"r{i}s", "".join(sh), None))
+        reads = [(n_, s_, "I" * len(s_)) for n_, s_, _ in reads]
         cases.append(dict(argv=argv, paired=False, reads1=reads, reads2=None, with_qual=True, interleaved_in=False))
     for case, res, real, model in pipe.run_cases(ctx, cases):
         ctx.count("directed-net-indel")
